@@ -201,11 +201,13 @@ def _history_cov(rng, Sig, diag):
 def _cov_args(rng, Sig):
     """a conditional may be given its covariance, its precision, or both with the log-determinant:
     all three are accepted constructor argument combinations and must give the same object."""
-    how = int(rng.integers(0, 3))
+    how = int(rng.integers(0, 4))
     if how == 0:
         return {"Sigma": J(Sig)}
     if how == 1:
         return {"Lambda": J(orc.inv(Sig))}
+    if how == 3:  # covariance and precision known, the log-determinant left to the constructor
+        return {"Sigma": J(Sig), "Lambda": J(orc.inv(Sig))}
     return {"Sigma": J(Sig), "Lambda": J(orc.inv(Sig)), "ln_det_Sigma": J(orc.slogdet(Sig))}
 
 
